@@ -76,21 +76,23 @@ def pl_model(S, P, d, k):
     """
     Law of the anchor closest (Euclidean) to the state.
 
-    Returns (value, scale, winner, unique, laws): laws[n, m, j] is the value
-    of law j; unique is False where the smallest distance is attained by more
-    than one anchor (tie: unspecified).
+    Returns (value, scale, winner, unique, laws, tied): laws[n, m, j] is the
+    value of law j; unique is False where the smallest distance is attained
+    by more than one anchor (tie: any of the tied anchors is "the closest",
+    tied[n, m, j] marks them; a strictly farther anchor is not).
     """
     S = np.asarray(S, float)
     anchors, coef = pl_split(P, d, k)
     diff = S[None, :, None, :] - anchors[:, None, :, :]       # N M k d
     dist = (diff * diff).sum(axis=3)                          # N M k
     best = dist.min(axis=2)
-    unique = (dist == best[:, :, None]).sum(axis=2) == 1
+    tied = dist == best[:, :, None]
+    unique = tied.sum(axis=2) == 1
     winner = dist.argmin(axis=2)
     laws = np.einsum("nkd,md->nmk", coef, S)
     value = np.take_along_axis(laws, winner[:, :, None], 2)[:, :, 0]
     scale = np.einsum("nkd,md->nmk", np.abs(coef), np.abs(S)).max(axis=2)
-    return value, scale, winner, unique, laws
+    return value, scale, winner, unique, laws, tied
 
 
 # --------------------------------------------------------------------- peaks
